@@ -283,15 +283,62 @@ Mat logm_series(const Mat& M) {
   return X;
 }
 
-Mat Group::exp(const Vec& t) const { return expm(hat(t)); }
+// power-of-two diagonal scales d (d_j <= 1) such that every entry of D^-1 A D in the affine columns of each block is <= 1
+Vec Group::balance_scales(const Mat& A) const {
+  Vec d = Vec::Ones(N);
+  for (size_t b = 0; b < blocks.size(); ++b) {
+    const Block& B = blocks[b];
+    const int o = offN[b];
+    for (int j = B.rotdim; j < B.N; ++j) {
+      Real lim = 1;  // d_j <= d_i / |A_ij| for every i < j of the block
+      bool fin = true;
+      for (int i = 0; i < j; ++i) {
+        Real a = std::fabs(A(o + i, o + j));
+        if (!(a == a) || std::isinf((double)a)) { fin = false; break; }
+        if (a > 0) lim = std::min(lim, d(o + i) / a);
+      }
+      if (!fin || !(lim > 0)) continue;
+      int e = 0; std::frexp(lim, &e);           // lim = m * 2^e, m in [0.5, 1)
+      Real dj = std::ldexp((Real)1, e - 1);       // largest power of two <= lim
+      if (dj > 1) dj = 1;
+      d(o + j) = dj;
+    }
+  }
+  return d;
+}
 
-Mat Group::inv(const Mat& M) const {
-  // block-wise LU (the matrix is block diagonal by construction)
+Mat Group::exp(const Vec& t) const {
+  // expm(hat t), evaluated on a diagonally balanced copy: with D = diag(d), d_j powers of two, expm(A) = D expm(D^-1 A D) D^-1
+  // exactly.  The affine columns (translation / velocity / time) are scaled down to O(1) so that the number of squarings is
+  // driven by the rotation size only; without this a translation of 1e6 costs 22 squarings, each of which doubles the rounding
+  // error of the rotation block (measured by checks/selftest.cpp: 4e-16 instead of 1e-18 at |translation| = 1e3).
+  Mat A = hat(t);
+  Vec d = balance_scales(A);
+  Mat As = A;
+  for (int i = 0; i < N; ++i) for (int j = 0; j < N; ++j) if (A(i, j) != 0) As(i, j) = A(i, j) * (d(j) / d(i));
+  Mat E = expm(As);
+  for (int i = 0; i < N; ++i) for (int j = 0; j < N; ++j) if (i != j && E(i, j) != 0) E(i, j) = E(i, j) * (d(i) / d(j));
+  return E;
+}
+
+Mat Group::inv(const Mat& M0) const {
+  // block-wise LU (the matrix is block diagonal by construction) of the diagonally balanced matrix D^-1 M D (exact power-of-two
+  // scaling): det M = 1, so a translation entry of 1e11 would otherwise force a pivot of 1e-11 and the rank-revealing
+  // threshold of a full-pivoting LU would call the matrix singular (found by checks/selftest.cpp).
+  Vec d = balance_scales(M0);
+  Mat M = M0;
+  for (int i = 0; i < N; ++i) for (int j = 0; j < N; ++j) if (i != j && M0(i, j) != 0) M(i, j) = M0(i, j) * (d(j) / d(i));
+  Mat R = inv_unscaled(M);
+  for (int i = 0; i < N; ++i) for (int j = 0; j < N; ++j) if (i != j && R(i, j) != 0) R(i, j) = R(i, j) * (d(i) / d(j));
+  return R;
+}
+
+Mat Group::inv_unscaled(const Mat& M) const {
   Mat R = Mat::Zero(N, N);
   for (size_t b = 0; b < blocks.size(); ++b) {
     int o = offN[b], m = blocks[b].N;
     Mat B = M.block(o, o, m, m);
-    R.block(o, o, m, m) = B.fullPivLu().inverse();
+    R.block(o, o, m, m) = B.partialPivLu().inverse();
   }
   return R;
 }
@@ -346,16 +393,52 @@ Vec Group::log(const Mat& M, bool* ok) const {
   return log_seeded(M, t, ok);
 }
 
+// J x = b with power-of-two row/column equilibration and partial pivoting (no rank decision): Jr couples rotation and linear
+// coordinates with entries of the size of the linear parts, which makes a rank-revealing LU call it singular.
+static Vec solve_equilibrated(const Mat& J, const Vec& b) {
+  const int n = J.rows();
+  Vec r = Vec::Ones(n), c = Vec::Ones(n);
+  Mat A = J;
+  for (int sweep = 0; sweep < 3; ++sweep) {
+    for (int i = 0; i < n; ++i) { Real m = A.row(i).cwiseAbs().maxCoeff(); if (m > 0 && m == m && !std::isinf((double)m)) { int e; std::frexp(m, &e); Real f = std::ldexp((Real)1, -e); A.row(i) *= f; r(i) *= f; } }
+    for (int j = 0; j < n; ++j) { Real m = A.col(j).cwiseAbs().maxCoeff(); if (m > 0 && m == m && !std::isinf((double)m)) { int e; std::frexp(m, &e); Real f = std::ldexp((Real)1, -e); A.col(j) *= f; c(j) *= f; } }
+  }
+  Vec y = A.partialPivLu().solve(r.cwiseProduct(b));  // (R J C) (C^-1 x) = R b
+  return c.cwiseProduct(y);
+}
+
+Mat inverse_equilibrated(const Mat& J) {
+  const int n = J.rows();
+  Mat X(n, n);
+  for (int j = 0; j < n; ++j) { Vec e = Vec::Zero(n); e(j) = 1; X.col(j) = solve_equilibrated(J, e); }
+  return X;
+}
+
 Vec Group::log_seeded(const Mat& M, const Vec& seed, bool* ok) const {
   Vec t = seed;
   bool conv = false;
+  Real prev_sz = std::numeric_limits<Real>::infinity();
+  const Real LM = lin_scale_M(M);
   for (int it = 0; it < 40; ++it) {
-    Mat D = logm_series(expm(hat(-t)) * M);
+    Mat D = logm_series(exp(-t) * M);
     Vec d = vee(D);
-    Vec step = Jr(t).fullPivLu().solve(d);
+    Vec step = solve_equilibrated(Jr(t), d);
     t += step;
-    Real sc = 1 + t.cwiseAbs().maxCoeff();
-    if (step.cwiseAbs().maxCoeff() <= 1e-19L * sc) { conv = true; break; }
+    // unit-consistent size of the step: rotation coordinates absolute, linear ones relative to the linear scale of t
+    // (the entries of M carry an absolute rounding error of ulp(lin_scale_M), which bounds what any log can recover)
+    Real lin = std::max(lin_scale_t(t), LM), sz = 0;
+    for (int i = 0; i < DoF; ++i) { Real x = std::fabs(step(i)) / (rotmask_t_[i] ? (Real)1 : lin); if (!(x == x)) { sz = std::numeric_limits<Real>::infinity(); break; } if (x > sz) sz = x; }
+    // converged: at the rounding floor of the extended-precision evaluation (1e-17), or stagnating below 1e-15 (three orders
+    // below the tightest bar any check uses); anything else is reported as not converged
+    if (sz <= 1e-17L) { conv = true; break; }
+    if (it >= 3 && sz <= 1e-15L && sz >= 0.5L * prev_sz) { conv = true; break; }
+    prev_sz = sz;
+  }
+  if (conv) {
+    // never report convergence on the strength of a small step alone: exp(t) must reproduce M
+    Mat E = exp(t);
+    Real L = std::max(lin_scale_M(M), lin_scale_M(E));
+    if (!(diffM(E, M, L) <= 1e-14L)) conv = false;
   }
   if (ok) *ok = conv;
   return t;
